@@ -17,16 +17,16 @@ func init() {
 	register("C11",
 		"Structural necessary conditions of C11 decided from /repo's SSA: (bijection) the report's item list shows each of the 22 counters of the JSON v1 struct exactly once (plus one item per tallied refgroup) with distinct v2 symbols, both the table and JSON v2 are produced from that single list, and v1 marshals the same struct; (same-value) a table row formats, the concern rule judges and JSON v2 emits the same value of the same item, and v2's levelOfConcern/referenceValue are float64(value)/scale and scale; (rule) levelOfConcern is interpreted over the atoms overflow, alert<threshold, alert>30 and must be: overflow ⇒ 30 bangs and shown, alert<threshold ⇒ hidden, alert>30 ⇒ bangs, else stars[:int(alert)], with positive scale constants; a row is emitted iff that function says shown; (empty) the `No problems` line is returned iff nothing was emitted and section headers are written only together with rows. Not decided: the human-readable rendering of a value (C12), monotonicity as a relation between two runs.",
 		[]string{"encoding/json marshals struct fields and map keys deterministically"},
-		ruleC11Bijection, ruleC11SameValue, ruleC11Rule, ruleC11Empty, ruleC11Precision)
+		ruleC11Bijection, ruleC11SameValue, ruleC11Rule, ruleC11Empty, ruleC11Precision, ruleC11ThresholdSource)
 	register("C12",
-		"Structural necessary conditions of C12 decided from /repo's syntax, constants and SSA — the thinnest claim of the nineteen, since the heart of C12 (correct rounding, half-unit error, monotonicity over 2^64 values) is numeric and NOT decided: (tables) the i-th multiplier of the metric table is 1000^i and of the binary table 1024^i with the SI/IEC prefix names, so the tables are non-empty, start at 1 and strictly increase; (exact) values below the first prefix are printed with an integer verb from the integer itself; (selection) the prefix loop is an ascending scan keeping the last prefix whose quotient is >= 1; (precision) for every branch of the precision switch, whole part in [L,U] with verb %.Pf gives at least three significant digits and at most five characters, U for the last prefix being floor((2^64-1)/multiplier).",
+		"Structural necessary conditions of C12 decided from /repo's syntax, constants and SSA — the thinnest claim of the nineteen, since the heart of C12 (correct rounding, half-unit error, monotonicity over 2^64 values) is numeric and NOT decided: (tables) the i-th multiplier of the metric table is 1000^i and of the binary table 1024^i with the SI/IEC prefix names, so the tables are non-empty, start at 1 and strictly increase; (exact) values below the first prefix are printed with an integer verb from the integer itself; (selection) the prefix loop is an ascending scan keeping the last prefix whose quotient is >= 1; (precision) for every branch of the precision switch, whole part in [L,U] with verb %.Pf gives at least three significant digits and at most five characters, U for the last prefix being floor((2^64-1)/multiplier); (unit-system) every report item whose unit is B is rendered with the 1024-based table and every other item with the 1000-based one.",
 		[]string{"fmt's %f rounding", "float64 conversion of uint64 (not decided)"},
-		ruleC12Tables, ruleC12Exact, ruleC12Selection, ruleC12Precision, ruleC12Mantissa, ruleC12WholePart)
+		ruleC12Tables, ruleC12Exact, ruleC12Selection, ruleC12Precision, ruleC12Mantissa, ruleC12WholePart, ruleC12UnitSystem)
 }
 
 // ---------------- C11 ----------------
 
-func (c *Ctx) newItemCalls() (contents *ssa.Function, calls []*ssa.Call, valIdx, symIdx, scaleIdx int) {
+func (c *Ctx) newItemCalls() (contents *ssa.Function, calls []itemRow, valIdx, symIdx, scaleIdx int) {
 	contents = c.fn("/sizes", "*HistorySize", "contents")
 	newItem := c.fn("/sizes", "", "newItem")
 	valIdx, symIdx, scaleIdx = -1, -1, -1
@@ -44,7 +44,7 @@ func (c *Ctx) newItemCalls() (contents *ssa.Function, calls []*ssa.Call, valIdx,
 			symIdx = i
 		}
 	}
-	calls = callsTo(contents, newItem)
+	calls = c.itemRows(contents, newItem)
 	return
 }
 
@@ -67,26 +67,26 @@ func ruleC11Bijection(c *Ctx) {
 	syms := map[string]int{}
 	groupItems := 0
 	for _, call := range calls {
-		sym, isConst := constStr(call.Call.Args[symIdx])
+		sym, isConst := constStr(call.Args[symIdx])
 		if !isConst {
-			groupItems++
+			if call.Row <= 0 {
+				groupItems++
+			}
 			continue
 		}
 		syms[sym]++
 		tag := ""
-		if mi, ok := call.Call.Args[valIdx].(*ssa.MakeInterface); ok {
-			tag = historyFieldTag(c, mi.X)
-		}
+		tag = historyFieldTag(c, itemValue(call.Args[valIdx]))
 		if tag == "" {
-			c.violate("C11.bijection", "item:"+sym, call.Pos(), name, "item "+sym+" does not show a counter of the measurement struct")
+			c.violate("C11.bijection", "item:"+sym, call.Pos, name, "item "+sym+" does not show a counter of the measurement struct")
 			continue
 		}
 		seen[tag]++
 		// scale constant > 0
-		if k, ok := constFloat(call.Call.Args[scaleIdx]); !ok || !(k > 0) {
-			c.violate("C11.rule", "scale:"+sym, call.Pos(), name, fmt.Sprintf("item %s has a reference value that is not a positive constant: value/reference would be negative, infinite or NaN", sym))
+		if k, ok := constFloat(call.Args[scaleIdx]); !ok || !(k > 0) {
+			c.violate("C11.rule", "scale:"+sym, call.Pos, name, fmt.Sprintf("item %s has a reference value that is not a positive constant: value/reference would be negative, infinite or NaN", sym))
 		} else {
-			c.present("C11.rule", "scale:"+sym, call.Pos(), fmt.Sprintf("reference value %g > 0", k))
+			c.present("C11.rule", "scale:"+sym, call.Pos, fmt.Sprintf("reference value %g > 0", k))
 		}
 	}
 	var tags []string
@@ -260,7 +260,7 @@ func ruleC11Empty(c *Ctx) {
 	name := fnName(ts)
 	isBufLen := func(v ssa.Value) bool {
 		call, ok := v.(*ssa.Call)
-		return ok && calleeQ(&call.Call) == "(*bytes.Buffer).Len"
+		return ok && (calleeQ(&call.Call) == "(*bytes.Buffer).Len" || calleeQ(&call.Call) == "(*strings.Builder).Len")
 	}
 	emptyFact := func(b *ssa.BasicBlock) (known, empty bool) {
 		for _, f := range factsAt(b) {
@@ -705,22 +705,50 @@ func ruleC12Precision(c *Ctx) {
 		return
 	}
 	name := fnName(f)
-	// the Sprintf with a float verb: its format is a phi of constants
+	// the float formatting call: fmt.Sprintf with a format chosen among
+	// constants "%.Nf", or strconv.FormatFloat(x, 'f', N, 64) with N chosen
+	// among constants
 	var sp *ssa.Call
+	var sel ssa.Value // the selected format / precision
+	viaStrconv := false
 	allInstrs(f, func(in ssa.Instruction) {
-		if call, ok := in.(*ssa.Call); ok && calleeQ(&call.Call) == "fmt.Sprintf" {
+		call, ok := in.(*ssa.Call)
+		if !ok {
+			return
+		}
+		switch calleeQ(&call.Call) {
+		case "fmt.Sprintf":
 			if _, isConst := constStr(call.Call.Args[0]); !isConst {
-				sp = call
+				sp, sel = call, call.Call.Args[0]
 			}
+		case "strconv.FormatFloat":
+			sp, sel, viaStrconv = call, call.Call.Args[2], true
 		}
 	})
 	if sp == nil {
 		c.violate("C12.precision", "format", f.Pos(), name, "no precision-dependent formatting found")
 		return
 	}
-	phi, ok := sp.Call.Args[0].(*ssa.Phi)
-	if !ok {
-		c.undecided("C12.precision", "format", sp.Pos(), name, "the float format is not selected by a switch over constants")
+	if viaStrconv {
+		if k, ok := constInt(sp.Call.Args[1]); !ok || k != 'f' {
+			c.violate("C12.precision", "verb:strconv", sp.Pos(), name, "strconv.FormatFloat is not used with the 'f' format: exponents or shortest-form output would appear in the value column")
+			return
+		}
+	}
+	type branch struct {
+		val  ssa.Value
+		pred *ssa.BasicBlock
+		to   *ssa.BasicBlock // the join the value flows into (nil: no phi)
+	}
+	var branches []branch
+	if phi, ok := sel.(*ssa.Phi); ok {
+		for i, e := range phi.Edges {
+			branches = append(branches, branch{e, phi.Block().Preds[i], phi.Block()})
+		}
+	} else if _, isConst := sel.(*ssa.Const); isConst {
+		branches = append(branches, branch{sel, sp.Block(), nil})
+	} else {
+		c.undecided("C12.precision", "format", sp.Pos(), name, "the float format is not selected among constants")
 		return
 	}
 	tabs := c.humanerTables()
@@ -743,21 +771,37 @@ func ruleC12Precision(c *Ctx) {
 			}
 		}
 	}
-	for i, e := range phi.Edges {
-		fs, ok := constStr(e)
-		if !ok {
-			c.undecided("C12.precision", fmt.Sprintf("branch%d", i), sp.Pos(), name, "a branch chooses a non-constant format")
-			continue
-		}
+	for i, br := range branches {
+		e := br.val
 		var P int
-		if _, err := fmt.Sscanf(fs, "%%.%df", &P); err != nil {
-			c.violate("C12.precision", "verb:"+fs, sp.Pos(), name, "format "+fs+" is not of the form %.Nf")
-			continue
+		var fs string
+		if viaStrconv {
+			k, ok := constInt(e)
+			if !ok || k < 0 {
+				c.undecided("C12.precision", fmt.Sprintf("branch%d", i), sp.Pos(), name, "a branch chooses a non-constant precision")
+				continue
+			}
+			P = int(k)
+			fs = fmt.Sprintf("%%.%df", P)
+		} else {
+			var ok bool
+			fs, ok = constStr(e)
+			if !ok {
+				c.undecided("C12.precision", fmt.Sprintf("branch%d", i), sp.Pos(), name, "a branch chooses a non-constant format")
+				continue
+			}
+			if _, err := fmt.Sscanf(fs, "%%.%df", &P); err != nil {
+				c.violate("C12.precision", "verb:"+fs, sp.Pos(), name, "format "+fs+" is not of the form %.Nf")
+				continue
+			}
 		}
 		// bounds on the whole part in the predecessor block
 		lo, hi := uint64(1), maxWhole
-		pred := phi.Block().Preds[i]
-		for _, fct := range factsAt(pred) {
+		facts := factsAt(br.pred)
+		if br.to != nil {
+			facts = factsOnEdge(br.pred, br.to)
+		}
+		for _, fct := range facts {
 			cond, truth := normCond(fct.Cond, fct.Truth)
 			cmp, ok := cond.(*ssa.BinOp)
 			if !ok {
@@ -968,4 +1012,62 @@ func ruleC12WholePart(c *Ctx) {
 	} else {
 		c.violate("C12.whole-part", "source", w.Pos(), name, bad)
 	}
+}
+
+// ruleC12UnitSystem: powers of 1024 for bytes, of 1000 for counts — decided
+// per report item: unit "B" <=> counts.Binary.
+func ruleC12UnitSystem(c *Ctx) {
+	contents := c.fn("/sizes", "*HistorySize", "contents")
+	newItem := c.fn("/sizes", "", "newItem")
+	if contents == nil || newItem == nil {
+		c.violate("C12.unit-system", "contents", token.NoPos, "", "the report's item list builder (contents/newItem) not found")
+		return
+	}
+	humIdx, unitIdx := -1, -1
+	for i, p := range newItem.Params {
+		if isNamed(p.Type(), modPath+"/counts", "Humaner") {
+			humIdx = i
+		}
+		if b, ok := p.Type().Underlying().(*types.Basic); ok && b.Kind() == types.String && humIdx >= 0 && unitIdx < 0 {
+			unitIdx = i
+		}
+	}
+	if humIdx < 0 || unitIdx < 0 {
+		c.violate("C12.unit-system", "newItem", newItem.Pos(), fnName(newItem), "newItem has no (Humaner, unit string) parameters")
+		return
+	}
+	n := 0
+	for _, row := range c.itemRows(contents, newItem) {
+		sym, _ := constStr(row.Args[0])
+		if sym == "" {
+			sym = "refgroup"
+		}
+		unit, okUnit := constStr(row.Args[unitIdx])
+		table := ""
+		if u, ok := c.resolve(row.Args[humIdx]).(*ssa.UnOp); ok && u.Op == token.MUL {
+			if g, ok := u.X.(*ssa.Global); ok && g.Pkg != nil && g.Pkg.Pkg.Path() == modPath+"/counts" {
+				table = g.Name()
+			}
+		}
+		switch {
+		case !okUnit || table == "":
+			c.undecided("C12.unit-system", sym, row.Pos, fnName(contents), "the unit or the prefix table of item "+sym+" is not a constant / a package-level table of counts")
+		case (unit == "B") != (table == "Binary"):
+			c.violate("C12.unit-system", sym, row.Pos, fnName(contents), fmt.Sprintf("item %s has unit %q but is rendered with counts.%s: byte quantities need powers of 1024, counts powers of 1000", sym, unit, table))
+		default:
+			n++
+			c.hold("C12.unit-system", sym, row.Pos, fmt.Sprintf("unit %q with counts.%s", unit, table))
+		}
+	}
+	c.Stats["items"] += n
+}
+
+// ruleC11ThresholdSource: the threshold the rows are filtered with is the
+// one given on the command line whenever an option of the threshold family
+// was given (C14.families, reported here under C11's name): otherwise
+// `--threshold=1` or `--no-verbose` would filter with gitconfig's value.
+func ruleC11ThresholdSource(c *Ctx) {
+	c.RuleAlias = map[string]string{"C14.families": "C11.threshold-source"}
+	defer func() { c.RuleAlias = nil }()
+	ruleC14Families(c)
 }
